@@ -47,11 +47,12 @@ fn ensure_aslr_off() {
 fn main() {
     let args: Vec<String> = std::env::args().collect();
     let cmd = args.get(1).map(String::as_str).unwrap_or("");
+    // every vrl-sim process (driver and workers) runs without ASLR; children inherit the persona
+    if std::env::var_os("VRL_SIM_REEXEC").is_none() {
+        ensure_aslr_off();
+    }
     match cmd {
         "session" => {
-            if std::env::var_os("VRL_SIM_REEXEC").is_none() {
-                ensure_aslr_off();
-            }
             entropy::seed_process(0x5E55_1011);
             worker::install_hooks();
             let mut input = String::new();
@@ -84,6 +85,7 @@ fn main() {
             match prop.as_str() {
                 "C17" => c17::run(&ctx),
                 "C16" => c16::run(&ctx),
+                "C14" => c14::run(&ctx),
                 "C15" => c15::run(&ctx),
                 other => {
                     eprintln!("no check for {other}");
@@ -103,11 +105,48 @@ fn main() {
                 }
             }
         }
+        "show-goldens" => {
+            // diagnostic: golden outcome of every case whose label starts with the given prefix
+            let prefix = args.get(2).cloned().unwrap_or_default();
+            for it in c14::items(true).iter().filter(|it| it.case.label.starts_with(&prefix)) {
+                for e in 0..it.events.len() {
+                    let s = c14::golden_session(it, e);
+                    match driver::run_one(&s, std::time::Duration::from_secs(300)) {
+                        Ok(r) => {
+                            println!("=== {} event {e}", it.case.label);
+                            for o in &r.worlds[0].obs {
+                                let txt = if o.kind == "compile" { o.outcome.lines().filter(|l| !l.starts_with("result=") && !l.contains("_kind=")).take(30).collect::<Vec<_>>().join("\n") } else { o.outcome.clone() };
+                                println!("[{}] {}", o.kind, check::truncate(&txt, 1500));
+                            }
+                        }
+                        Err(e) => println!("=== {} FAILED {e}", it.case.label),
+                    }
+                }
+            }
+        }
+        "time-goldens" => {
+            // diagnostic: wall time of each golden session, slowest first
+            let items = c14::items(true);
+            let mut rows = vec![];
+            for it in &items {
+                let s = c14::golden_session(it, 0);
+                let t = std::time::Instant::now();
+                let _ = driver::run_one(&s, std::time::Duration::from_secs(300));
+                rows.push((t.elapsed().as_millis(), it.case.label.clone()));
+            }
+            rows.sort();
+            rows.reverse();
+            let total: u128 = rows.iter().map(|r| r.0).sum();
+            println!("total {total} ms over {} sessions", rows.len());
+            for r in rows.iter().take(40) {
+                println!("{:6} ms  {}", r.0, r.1);
+            }
+        }
         "replay" => {
             let text = std::fs::read_to_string(&args[2]).expect("read replay file");
             let file: spec::ReplayFile = serde_json::from_str(&text).expect("parse replay file");
             println!("replaying {} / {} (recorded on vrl tree {}, now {})", file.property, file.class, file.vrl_tree, check::vrl_tree_id());
-            match check::execute(&file.judge, &file.session, file.reference.as_ref(), std::time::Duration::from_secs(600)) {
+            match check::execute(&file.judge, &file.session, &file.reference, std::time::Duration::from_secs(600)) {
                 Ok(vs) => {
                     let hit = vs.iter().find(|v| v.property == file.property && v.class == file.class);
                     match hit {
